@@ -280,6 +280,45 @@ func H_C19_http_idle() {
 	})
 }
 
+// H_C19_http_idle_stamped: a connection that HAS carried traffic (its user read one envelope, which
+// stamps the activity time from the clock) falls silent for 30 s against a 10 s timeout; the
+// cleaner ticks. A reader blocked in Read with a context that is never cancelled must be failed by
+// the sweep - the stamp and the sweep have to agree on the unit of time (seeded change C19g).
+func H_C19_http_idle_stamped() {
+	clock := &zzFakeClock{now: time.Unix(100000, 0), tick: make(chan time.Time)}
+	var conn RpcReadWriter
+	announced := make(chan struct{})
+	goh := NewGoatOverHttp(func(id string, rw RpcReadWriter) {
+		vfHarnessGoroutine()
+		conn = rw
+		close(announced)
+	}, func(src string) (string, error) { return src, nil },
+		WithClock(clock), WithConnectionTimeout(10*time.Second), WithConnectionCleanupInterval(time.Second))
+	d, _ := proto.Marshal(&Rpc{Id: 7, Header: &RpcHeader{Method: "/s/m", Source: "peer"}})
+	go func() {
+		goh.ServeHTTP(&zzRespWriter{hdr: http.Header{}}, &http.Request{Method: "POST", Body: &zzBodyReader{data: d}})
+	}()
+	firstOK := false
+	secondReturned := false
+	var secondErr error
+	go func() {
+		<-announced
+		got, err := conn.Read(context.Background())
+		firstOK = err == nil && got != nil && got.Id == 7
+		clock.now = clock.now.Add(30 * time.Second) // silence
+		clock.tick <- clock.now
+		_, secondErr = conn.Read(context.Background())
+		secondReturned = true
+	}()
+	vfAtQuiescence(func() {
+		vfAssert(firstOK, "first-envelope-read")
+		vfAssert(secondReturned, "reader-of-idle-connection-is-failed-by-the-sweep")
+		vfAssert(secondErr != nil, "read-on-timed-out-connection-fails")
+		vfReach("checked")
+		goh.Cancel()
+	})
+}
+
 // H_C19_http_ack: a valid envelope is POSTed while nobody reads the connection; the idle sweep runs;
 // only then does the connection's user read. If the sender was told "accepted" (200), the envelope
 // must be what that Read returns - an acknowledged envelope is never lost; otherwise the sender got
